@@ -84,18 +84,21 @@ func LengthEncodedInt(data []byte) (num uint64, isNull bool, n int, err error) {
 func LengthEncodedString(data []byte) ([]byte, int, error) {
 	// Get length
 	num, isNull, n, err := LengthEncodedInt(data)
+	if err != nil {
+		return nil, 0, err
+	}
 	// NULL values are encoded with special length values. Represent them with "nil" in Go.
 	if isNull {
 		return nil, n, err
 	}
 
-	n += int(num)
-
-	// Check data length
-	if len(data) >= n {
-		return data[n-int(num) : n], n, nil
+	// The declared length comes from the wire: compare it as uint64 with the
+	// remaining data before converting to int (values >= 2^63 turn negative).
+	if num > uint64(len(data)-n) {
+		return nil, n, io.EOF
 	}
-	return nil, n, io.EOF
+	n += int(num)
+	return data[n-int(num) : n], n, nil
 }
 
 // SkipLengthEncodedString https://dev.mysql.com/doc/internals/en/string.html#packet-Protocol::LengthEncodedString
@@ -108,12 +111,12 @@ func SkipLengthEncodedString(data []byte) (int, error) {
 		return n, nil
 	}
 
-	n += int(num)
-
-	if len(data) >= n {
-		return n, nil
+	// see LengthEncodedString: uint64 comparison before the conversion to int
+	if num > uint64(len(data)-n) {
+		return n, io.EOF
 	}
-	return n, io.EOF
+	n += int(num)
+	return n, nil
 }
 
 // PutLengthEncodedInt https://dev.mysql.com/doc/internals/en/integer.html#packet-Protocol::LengthEncodedInteger
